@@ -329,6 +329,7 @@ class ExprMixin:
                 s1 = r.st.copy(); s1.assume(stop)
                 if self.feasible(s1): out.append(Res(s1, r.val))
                 s2 = r.st.copy(); s2.assume(cont)
+                self.narrow(s2, vals[0], is_and)      # isinstance() known true (and) / `not isinstance()` known false (or) from here on
                 if self.feasible(s2): out += go(s2, vals[1:])
             return out
         rs = go(st, n.values)
@@ -440,6 +441,15 @@ class ExprMixin:
         for t in (ta, tb):
             if t in self.reg.classes and self.reg.lookup(t, "__eq__", self.functions):
                 raise Unsupported(f"== on class {t} with __eq__ (line {lineno})")
+        if self.spec_depth:
+            return a.t == b.t       # in clauses `==` on untyped operands is identity of values; py_equal(a, b) names Python's ==
+        if ta is None and tb is None and not (z3.is_app(a.t) and a.t.decl().name() in ("NoneV", "IntV", "StrV", "BoolV")) \
+                and not (z3.is_app(b.t) and b.t.decl().name() in ("NoneV", "IntV", "StrV", "BoolV")):
+            # both operands statically untyped (may be containers or objects with __eq__): Python's == is a ghost predicate,
+            # reflexive and agreeing with identity on scalars
+            pe = z3.Function("py_equal", Val, Val, z3.BoolSort())
+            st.assume(z3.Implies(a.t == b.t, pe(a.t, b.t)))
+            return pe(a.t, b.t)
         return a.t == b.t
 
     def ev_Compare(self, st, n):
@@ -647,7 +657,9 @@ class ExprMixin:
         return out
 
     def ev_Lambda(self, st, n):
-        raise Unsupported(f"lambda as a value at line {n.lineno}")
+        v = V(z3.Const(fresh_name("lambda"), Val), "lambda")
+        self.lambdas[v.t.decl().name()] = n
+        return [Res(st, v)]
 
     def ev_ListComp(self, st, n):
         try:
